@@ -5,6 +5,7 @@
 From Coq Require Import List ZArith Bool Permutation.
 From AV Require Import Engine.Core Engine.Sem Engine.Eval Engine.Validate Engine.Naive Engine.Interface Engine.Main.
 From AV Require Import Engine.ParStep Engine.InterfacePar Engine.ParProofs Engine.MainPar.
+From AV Require Import Engine.InterfaceAgg Engine.Strat Engine.StratFixed Engine.EvalSpecAgg Engine.SemiNaiveAgg Engine.ParProofsAgg.
 Import ListNotations.
 
 (* one iteration: for every distribution of the derived facts over the workers and every interleaving that lets all
@@ -41,11 +42,27 @@ Theorem c02_par_equals_serial : forall I swap swap' arities P pl fuel F0 st_par 
   same_set (rows st_par) (rows st_ser).
 Proof. exact par_equals_serial. Qed.
 
-(* PARTIAL: (a) programs with aggregation / negation and lattice relations (key mutex + re-check protocol) are
-   exercised by the tie but not covered by these theorems; (b) RESIDUE that no executable model can exhibit: the
-   real DashMap / RwLock / Mutex / boxcar implementations, rayon's work stealing and the Relaxed store to __changed
-   being visible after the scope's join are assumed linearizable / correct (trusted base); the schedule space of the
-   real binary is sampled under seeded perturbation (gen/props/c02.py), not enumerated. *)
+(* with aggregation / negation: every parallel run of a validated plan on duplicate-free input computes the
+   stratified model (aggregated relations are complete and frozen while workers read them), rows duplicate free,
+   inputs in place; hence the same relations as the serial run *)
+Theorem c02_par_run_stratified_model : forall (I : interp) swap arities P pl F0 st,
+  arities_functional arities -> wf_facts arities F0 = true -> NoDup F0 -> agg_perm_invariant I ->
+  validate arities P pl = true ->
+  par_run_plan I swap pl (init_state F0) st ->
+  stratified (plan_strata P pl) = true
+  /\ (forall r, In r P <-> In r (concat (plan_strata P pl)))
+  /\ strat_model_fixed I (plan_strata P pl) F0 (rows st)
+  /\ NoDup (rows st)
+  /\ exists added, rows st = F0 ++ added.
+Proof. intros I swap. exact (par_run_strat_correct I swap (eval_variant_spec_agg I swap)). Qed.
+
+(* PARTIAL: lattice relations under ascent_par! — the key mutex + re-check protocol of the parallel lattice head
+   update is modelled and proved per iteration in Engine/ParLat*.v where available (one row per key and the join of
+   all contributions for every interleaving), but the whole parallel lattice ENGINE is exercised by the tie only.
+   RESIDUE that no executable model can exhibit: the real DashMap / RwLock / Mutex / boxcar implementations, rayon's
+   work stealing and the Relaxed store to __changed being visible after the scope's join are assumed linearizable /
+   correct (trusted base); the schedule space of the real binary is sampled under seeded perturbation
+   (gen/props/c02.py), not enumerated. *)
 
 Print Assumptions c02_iteration_schedule_independent. Print Assumptions c02_progress.
-Print Assumptions c02_par_run_least_model. Print Assumptions c02_par_equals_serial.
+Print Assumptions c02_par_run_least_model. Print Assumptions c02_par_equals_serial. Print Assumptions c02_par_run_stratified_model.
